@@ -267,8 +267,12 @@ def _case_on(case):
                         for k in sorted(_keys(js) & want_keys):
                             w = kaula.F2_at(l, k[0], k[1], float(ob))
                             if not abs(float(js[k]) - w) <= TOL * scale[k]:
-                                viol.append(('C09/compiled/scalar-value', dict(l=l, m=k[0], p=k[1], I=ob, got=float(js[k]),
-                                                                               want=w, route=route)))
+                                site = 'C09/compiled/scalar-value'
+                                if (l, k) == (6, (3, 3)) and \
+                                        abs(float(js[k]) * math.cos(float(ob) / 2.0) ** 3 - w) <= TOL * scale[k]:
+                                    site = 'C09/on-table/l6-m3-p3/cos_i_half-exponent-1-instead-of-4'   # same slip, scalar path
+                                viol.append((site, dict(l=l, m=k[0], p=k[1], I=ob, got=float(js[k]), want=w, route=route,
+                                                        how='compiled, scalar argument')))
                         if _keys(js) != keys:
                             viol.append(('C09/compiled/keys-differ-from-python', dict(l=l, route=route, how='scalar')))
             except Exception as e:
@@ -317,7 +321,7 @@ def _case_off(case):
                 sc = kaula.F2_scale(l, *k)
                 if k in keys:
                     v = np.asarray(tab[k], dtype=np.float64)
-                    stats['off_entries'] += 1
+                    stats['off_entries'] += (how == 'python')
                     if v.shape != args.shape or not np.all(np.abs(v - float(w)) <= 1e-14 * max(float(w), 1e-300)):
                         viol.append(('C09/off-table/value', dict(l=l, m=k[0], p=k[1], route=route, how=how, got=v.tolist()[:4],
                                                                  want=float(w))))
@@ -325,7 +329,7 @@ def _case_off(case):
                         viol.append(('C09/off-table/differs-from-on-table-at-zero', dict(l=l, m=k[0], p=k[1], route=route,
                                      on_at_zero=on[k], off=float(np.ravel(v)[0]))))
                 else:
-                    stats['off_omitted'] += 1
+                    stats['off_omitted'] += (how == 'python')
                     if w != 0:
                         viol.append(('C09/off-table/missing-entry', dict(l=l, m=k[0], p=k[1], route=route, how=how,
                                                                          F2_at_zero=float(w))))
@@ -424,6 +428,8 @@ def run_case(case):
     t0 = time.time()
     from mc import env
     env.tidalpy()
+    from mc.refmodels.poolwatch import numba_ready
+    numba_ready()
     kind = case['kind']
     r = dict(on=_case_on, off=_case_off, lookup=_case_lookup, universal=_case_universal)[kind](case)
     r['t'] = round(time.time() - t0, 2)
